@@ -227,16 +227,17 @@ def implicit_attributes():
     src = ("real function area(r)\n  real :: r\n  pointer :: area\n  area => null()\nend function area\n"
            "integer function count_items(n)\n  integer :: n\n  count_items = n\nend function count_items\n"
            "function legacy(i, x)\n  dimension x(3)\n  legacy = i\nend function legacy\n"
+           "subroutine cb(f, g)\n  interface\n    function f(x)\n      real :: x, f\n    end function f\n    subroutine g()\n    end subroutine g\n  end interface\n  optional :: f\n  optional g\nend subroutine cb\n"
            "subroutine blocks()\n  common /c/ p, q, w(2,3)\n  target :: q\nend subroutine blocks\n"
            "block data init\n  common /c/ p, q, w\n  dimension w(2,3)\nend block data init\n")
     proj = realrun.build_project({"src/i.f90": src}, display=["public", "private", "protected"], proc_internals=True)
     procs = {p.name: p for p in proj.procedures}
     a = lambda v: sorted(x.lower().replace(" ", "") for x in v.attribs)
     got = {"result of area": a(procs["area"].retvar), "result of count_items": a(procs["count_items"].retvar), "result of legacy": a(procs["legacy"].retvar),
-           "dummy i of legacy": a(procs["legacy"].args[0]), "dummy x of legacy": a(procs["legacy"].args[1]), "dummy r of area": a(procs["area"].args[0]),
+           "dummy i of legacy": a(procs["legacy"].args[0]), "dummy x of legacy": a(procs["legacy"].args[1]), "dummy r of area": a(procs["area"].args[0]), "dummy procedures of cb": [(x.name, a(x)) for x in procs["cb"].args],
            "common /c/": [(v if isinstance(v, str) else (v.name, a(v))) for v in procs["blocks"].common[0].variables],
            "common /c/ in the block data": [(v if isinstance(v, str) else (v.name, a(v))) for v in proj.blockdata[0].common[0].variables]}
-    want = {"result of area": ["pointer"], "result of count_items": [], "result of legacy": [], "dummy i of legacy": [], "dummy x of legacy": ["dimension(3)"], "dummy r of area": [],
+    want = {"result of area": ["pointer"], "result of count_items": [], "result of legacy": [], "dummy i of legacy": [], "dummy x of legacy": ["dimension(3)"], "dummy r of area": [], "dummy procedures of cb": [("f", ["optional"]), ("g", ["optional"])],
             "common /c/": [("p", []), ("q", ["target"]), ("w", ["dimension(2,3)"])], "common /c/ in the block data": [("p", []), ("q", []), ("w", ["dimension(2,3)"])]}
     if got != want:
         return {"confirmed": True, "input": {"source": src}, "actual": got, "expected": want,
